@@ -34,6 +34,7 @@ METHODS = ["quantile", "bc", "bca"]
 AFFINE = [(2.0, -3.0), (0.5, 10.0), (1.0, 1048576.0), (2.0 ** -30, 0.0)]
 NAN = float("nan")
 SCALES = [1.0, 2.0 ** -30, 1024.0, 2.0 ** -12]  # per-component scales of one stacked call
+SCALES_FAR = [2.0 ** -200, 2.0 ** 200, 1.0]  # hundreds of binades apart, each far inside the range of float64
 
 
 def bounds(tier):
@@ -75,6 +76,7 @@ def work(tier, seed):
     items += [{"kind": "sets", "alphabet": "ulp", "part": i, "parts": 16} for i in range(16)]
     items.append({"kind": "errors"})
     items.append({"kind": "pole"})
+    items += [{"kind": "narrow_float_sets", "dtype": dt_} for dt_ in ("float32", "float16")]
     for k in range(3):
         items.append({"kind": "alpha_sweep", "which": k, "n": 250 if tier == "quick" else 1500})
     return items
@@ -124,6 +126,8 @@ def run(item, ctx, tier, seed):
         return _run_pole(ctx)
     if item["kind"] == "alpha_sweep":
         return _run_alpha_sweep(item, ctx)
+    if item["kind"] == "narrow_float_sets":
+        return _run_narrow_float_sets(item, ctx)
     ulp_item = item.get("alphabet") == "ulp"
     ms = multisets(b, ULP_ALPHABET) if ulp_item else multisets(b)
     theta_hats = ULP_THETA_HATS if ulp_item else b["theta_hat"]
@@ -221,6 +225,14 @@ def run(item, ctx, tier, seed):
                                 if not np.array_equal(aarr, akeep):
                                     ctx.fail("alpha-array-unchanged", dict(case, call=rep + 1), observed=aarr, expected=akeep)
                                     break
+                        # the method name as an equal string built at run time / as a NumPy string
+                        if alpha == 0.05:
+                            from mc import ordertypes as ot_
+                            for kname, mval in ot_.string_kinds(method)[1:]:
+                                ok, ci = guarded(ctx, "method-kind", dict(case, method_passed_as=kname), _call, theta, th, alpha, mval)
+                                ctx.tick()
+                                if ok and not np.allclose(np.asarray(ci, dtype=float), base, rtol=0, atol=tol, equal_nan=True):
+                                    ctx.fail("method-name-compared-by-value", dict(case, method_passed_as=kname), observed=ci, expected=list(base))
                         # integer-valued replicates stored in an integer array
                         if all(not math.isnan(t) and float(t).is_integer() for t in theta):
                             ok, ci = guarded(ctx, "int-dtype", case, lambda: __import__("score_analysis").utils.bootstrap_ci(
@@ -297,8 +309,8 @@ def run(item, ctx, tier, seed):
                             if ok and not np.array_equal(np.asarray(ci), np.asarray(base), equal_nan=True):
                                 ctx.fail("memory-layout-irrelevant", dict(case, layout=lname), observed=ci, expected=base)
                 # ---- components on very different scales (exact powers of two): each still equals its stand-alone call
-                if size > 1:
-                    scales = [SCALES[k % len(SCALES)] for k in range(size)]
+                for SC_ in ((SCALES, SCALES_FAR) if size > 1 else ()):
+                    scales = [SC_[k % len(SC_)] for k in range(size)]
                     theta_s = (np.array(pick, dtype=float) * np.array(scales)[:, None]).T.reshape((N,) + yshape)
                     hat_s = (np.array(hats, dtype=float) * np.array(scales)).reshape(yshape)
                     case = {"N": N, "metric_shape": list(yshape), "method": method, "columns": pick[:3], "scales": scales[:3]}
@@ -316,6 +328,38 @@ def run(item, ctx, tier, seed):
                                 ctx.fail("components-independent", dict(case, component=k, scale=scales[k], alpha=0.1),
                                          observed=flat[k], expected=single)
     ctx.sample({"kind": "stacked", "metric_shapes": b["metric_shapes"], "alpha_shapes": b["alpha_shapes"]})
+    return None
+
+
+def _run_narrow_float_sets(item, ctx):
+    """Replicates stored in float32 / float16 with a float64 estimate that is not a value of that type and lies
+    between a replicate and its own rounding: 'theta <= theta_hat' is a comparison of the numbers themselves."""
+    dt = np.dtype(item["dtype"])
+    dec = [0.1, 0.3, 0.7, 0.9]
+    al = [float(np.asarray(v, dtype=dt)) for v in dec]  # the exact values the narrow type stores
+    hats = dec + [al[1], 0.5]
+    for n in range(1, 6):
+        for combo in itertools.combinations_with_replacement(range(len(al)), n):
+            theta = [al[i] for i in combo]
+            arr = np.array(theta, dtype=dt)
+            rng_ = max(max(theta) - min(theta), 1.0)
+            for th in hats:
+                ctx.state()
+                for method in ("bc", "bca"):
+                    for alpha in (0.1, 0.5):
+                        case = {"kind": "narrow_float_sets", "dtype": dt.name, "theta": theta, "theta_hat": th, "alpha": alpha, "method": method}
+                        ok, ci = guarded(ctx, "call", case, lambda: __import__("score_analysis").utils.bootstrap_ci(arr, th, alpha, method=method))
+                        ctx.tick()
+                        if any(min(t, float(np.asarray(th, dtype=dt))) < th < max(t, float(np.asarray(th, dtype=dt))) or t == float(np.asarray(th, dtype=dt)) != th
+                               for t in theta):
+                            ctx.nontrivial()
+                        if not ok:
+                            continue
+                        want = refs.ref_bootstrap_ci(theta, th, alpha, method)
+                        if want is not None and not np.allclose(np.asarray(ci, dtype=float), want, rtol=0, atol=8 * float(np.finfo(dt).eps) * rng_):
+                            # (the quantile interpolation itself is carried out in the narrow type: judged to its resolution)
+                            ctx.fail("limits-equal-documented-formula", case, observed=ci, expected=list(want))
+    ctx.sample({"kind": "narrow_float_sets", "dtype": dt.name, "alphabet": al, "estimates": hats})
     return None
 
 
